@@ -1323,6 +1323,16 @@ DOC_ODD = (
     ('nul-in-env-name', '[setup]\nenv A\x00 = x\n'), ('nul-in-string', "[setup]\ndef string S = 'a\x00b'\n"),
     ('nul-in-file-name', '[setup]\ndir a\x00b\n'), ('nul-in-file-name-2', '[setup]\nfile a\x00b = x\n'),
     ('nul-in-path-argument', '[assert]\nexists a\x00b\n'),
+    # a file name the OS refuses, at every kind of place a path reaches the OS (fix 4f7c440: home, cd, program of [act])
+    ('long-file-name-home', '[conf]\nhome = ' + 'a' * 300 + '\n'), ('long-file-name-act-home', '[conf]\nact-home = ' + 'a' * 300 + '\n'),
+    ('long-file-name-cd', '[setup]\ncd ' + 'a' * 300 + '\n'), ('long-file-name-act-program', '[act]\n' + 'a' * 300 + '\n'),
+    ('long-file-name-file', '[setup]\nfile ' + 'a' * 300 + '\n'), ('long-file-name-copy', '[setup]\ncopy ' + 'a' * 300 + '\n'),
+    ('long-file-name-exists', '[assert]\nexists ' + 'a' * 300 + '\n'), ('long-file-name-contents', '[assert]\ncontents ' + 'a' * 300 + ' : is-empty\n'),
+    ('long-file-name-dir-contents', '[assert]\ndir-contents ' + 'a' * 300 + ' : is-empty\n'),
+    ('long-file-name-run', '[setup]\nrun ' + 'a' * 300 + '\n'), ('long-file-name-contents-of', '[setup]\nfile f = -contents-of ' + 'a' * 300 + '\n'),
+    ('long-file-name-including', '[setup]\nincluding ' + 'a' * 300 + '\n'),
+    ('long-file-name-file-actor', '[conf]\nactor = file % sh\n[act]\n' + 'a' * 300 + '\n'),
+    ('long-file-name-existing-file-arg', '[setup]\nrun % echo -existing-file ' + 'a' * 300 + '\n'),
     ('nul-in-including-path', '[setup]\nincluding a\x00b\n'), ('nul-in-including-path-act', '[act]\nincluding \x00\n'),  # fix a1b1ace
     ('act-rest-of-line-with-quote', "[act]\n-python -c :> 'not a token\n"),
 )
